@@ -36,8 +36,8 @@ type (
 	Zipf     = rand.Zipf
 )
 
-func New(src Source) *Rand         { return rand.New(src) }
-func NewSource(seed int64) Source  { return rand.NewSource(seed) }
+func New(src Source) *Rand                             { return rand.New(src) }
+func NewSource(seed int64) Source                      { return rand.NewSource(seed) }
 func NewZipf(r *Rand, s, v float64, imax uint64) *Zipf { return rand.NewZipf(r, s, v, imax) }
 
 // Seed is kept for source compatibility; it only affects the fallback.
